@@ -223,13 +223,35 @@ pub fn record(out: &str, seed: u64, n: usize) -> Value {
             continue;
         }
         let chars: Vec<char> = pool.iter().cloned().filter(|c| safe(enc, *c)).collect();
+        // "mojibake" units: strings whose bytes in THIS encoding are well-formed UTF-8 (the UTF-8 bytes of a few letters read
+        // as this encoding).  A document made only of such units and ASCII is valid UTF-8 byte-wise and still means
+        // something else: whoever looks at the bytes instead of asking the decoder gets the wrong text.
+        let mut units: Vec<String> = Vec::new();
+        if enc.is_single_byte() {
+            for u in ["é", "п", "р", "ü", "ß", "Ж", "ç"] {
+                let (l, bad) = enc.decode_without_bom_handling(u.as_bytes());
+                if !bad && l.chars().all(|c| safe(enc, c)) && enc.encode(&l).0.as_ref() == u.as_bytes() {
+                    units.push(l.into_owned());
+                }
+            }
+        }
+        for a in ["a", "z", "0"] {
+            units.push(a.to_string());
+        }
         for j in 0..n {
-            let mut gen = |rng: &mut StdRng, len: usize| -> String { (0..len).map(|_| chars[rng.gen_range(0..chars.len())]).collect() };
+            let moji = j % 4 == 1 && units.len() > 3;
+            let mut gen = |rng: &mut StdRng, len: usize| -> String {
+                if moji {
+                    (0..len).map(|_| units[rng.gen_range(0..units.len())].clone()).collect()
+                } else {
+                    (0..len).map(|_| chars[rng.gen_range(0..chars.len())]).collect()
+                }
+            };
             let with_decl = enc != UTF_8 || rng.gen_bool(0.5);
             let bom = enc == UTF_8 && rng.gen_bool(0.5);
             let name = gen(&mut rng, 1).replace(' ', "n").replace(|c: char| c.is_ascii_digit(), "d");
             // payloads; some start with U+FEFF (a character of the content, not a byte-order mark) where encodable
-            let zw = if safe(enc, '\u{feff}') && rng.gen_bool(0.5) { "\u{feff}" } else { "" };
+            let zw = if !moji && safe(enc, '\u{feff}') && rng.gen_bool(0.5) { "\u{feff}" } else { "" };
             let (pa, pb, pt, pc, pd, pe, pf) = (format!("{zw}{}", gen(&mut rng, 4)), gen(&mut rng, 2), format!("{zw}{}", gen(&mut rng, 6)).trim_end().to_string() + "x",
                 gen(&mut rng, 3), format!("{zw}{}", gen(&mut rng, 4)), gen(&mut rng, 2), gen(&mut rng, 3) + "y");
             let body = format!("<r{n} k=\"{}\" j='{}'>{}<!--{}--><![CDATA[{}]]><?p {}?><e{n}/>{}</r{n}>", pa, pb, pt, pc, pd, pe, pf, n = name);
@@ -270,7 +292,32 @@ pub fn record(out: &str, seed: u64, n: usize) -> Value {
             }
             let source = [0u8, 2, 2, 3][rng.gen_range(0..4)];
             let first_piece = if source >= 2 { [0usize, 3, 4, 5, 40][rng.gen_range(0..5)] } else { 0 };
-            let evs = read_all(&bytes, source, first_piece);
+            let source = if moji { 0 } else { source };
+            let mut evs = read_all(&bytes, source, first_piece);
+            // Reader::read_text (slice reader): the text between the root's tags, decoded with the reader's decoder, is the
+            // original inner content
+            if source == 0 && !malformed {
+                let inner = format!("{}<!--{}--><![CDATA[{}]]><?p {}?><e{n}/>{}", pt, pc, pd, pe, pf, n = name);
+                let mut reader = Reader::from_reader(&bytes[..]);
+                let mut verdict: Option<String> = None;
+                for _ in 0..4 {
+                    match reader.read_event() {
+                        Ok(Event::Start(e)) => {
+                            let nm = e.name().as_ref().to_vec();
+                            let got = reader.read_text(quick_xml::name::QName(&nm));
+                            if got.as_ref().map(|c| c.as_ref() != inner).unwrap_or(true) {
+                                verdict = Some(format!("read_text gives {:?}, the original content is {:?}", got.map(|c| c.into_owned()).map_err(|e| e.to_string()), inner));
+                            }
+                            break;
+                        }
+                        Ok(Event::Eof) | Err(_) => break,
+                        _ => {}
+                    }
+                }
+                if let (Some(v), Some(e)) = (verdict, evs.iter_mut().find(|e| e.k == "Start")) {
+                    e.k = v;
+                }
+            }
             let seen = if source >= 2 && first_piece != 0 { first_piece.min(bytes.len()) } else { bytes.len() };
             write_run(&mut f, "reader", &bytes[..seen.min(4)], malformed, &evs, Some(&orig), if malformed { None } else { Some(&truth) }, &mut events);
             traces += 1;
